@@ -9,7 +9,7 @@
                       | iter B (whole FOREACH_BITMAP_BIT) | iinit B | inext   (ids may coincide: aliasing)
      per op: return token, then all bitmaps as hex words without trailing zero words joined by '.',
      bitmaps separated by '/', then '#'-token = VARR_LENGTH of each bitmap (representation, not contents)
-   htab <min_size> <hash of key 0> <hash of key 1> ... : find K | ins K V | rep K V | del K | clear | num | each | coll
+   htab|htabn <min_size> <hash of key 0> <hash of key 1> ... : find K | ins K V | rep K V | del K | clear | num | each | coll
      elements are numbers K*1000+V, eq = same key, hash = the table in the header (forced 0 / collisions)
      per op: 'f<found>' 'e<*res or ->' (do) | '-' | 'n<els_num>' | 'l<elements, sorted>' '#l<in foreach order>' | '#c<collisions>';
      then 'F<sorted elements free_func was called on by this op>' '#F<same in call order>', then the dump
@@ -296,7 +296,7 @@ static void dump_htab (HTAB (hel) * ht) {
   }
 }
 
-static void run_htab (char *args, char *ops) {
+static void run_htab (char *args, char *ops, int with_free) {
   HTAB (hel) * ht;
   char *e;
   unsigned long min_size = strtoul (args, &e, 10);
@@ -308,7 +308,10 @@ static void run_htab (char *args, char *ops) {
     if (h_nkeys < MAXKEYS) h_table[h_nkeys++] = (unsigned) h;
     e = e2;
   }
-  HTAB_CREATE_WITH_FREE_FUNC (hel, ht, &h_alloc, (htab_size_t) min_size, hel_hash, hel_eq, hel_free, NULL);
+  if (with_free)
+    HTAB_CREATE_WITH_FREE_FUNC (hel, ht, &h_alloc, (htab_size_t) min_size, hel_hash, hel_eq, hel_free, NULL);
+  else /* kind 'htabn': free_func == NULL -- same behaviour, no calls (coq/C19/HtabGhost.v) */
+    HTAB_CREATE (hel, ht, &h_alloc, (htab_size_t) min_size, hel_hash, hel_eq, NULL);
   char *save, *op;
   for (op = strtok_r (ops, ";", &save); op != NULL; op = strtok_r (NULL, ";", &save)) {
     char name[32];
@@ -465,7 +468,9 @@ int main (void) {
     else if (!strcmp (kind, "bitmap"))
       run_bitmap (line + off, colon + 1);
     else if (!strcmp (kind, "htab"))
-      run_htab (line + off, colon + 1);
+      run_htab (line + off, colon + 1, 1);
+    else if (!strcmp (kind, "htabn"))
+      run_htab (line + off, colon + 1, 0);
     else if (!strcmp (kind, "dlist"))
       run_dlist (line + off, colon + 1);
     else if (!strcmp (kind, "hash")) {
